@@ -27,12 +27,17 @@ NumAtoms ==
      DecToNum(FALSE, <<1>>, 21), DecToNum(FALSE, <<1>>, -7), DecToNum(FALSE, <<1>>, -6), DecToNum(FALSE, <<1>>, -1),
      DecToNum(FALSE, Dg(<<49, 50, 51, 52, 53, 54, 55, 56, 57, 48, 49, 50, 51, 52, 53, 54, 56>>), 4),   \* 123456789012345680000
      DecToNum(TRUE, Dg(<<49, 50, 51>>), 18),
-     Pow2(53), Pow2(31), Canon(FALSE, <<1>>, -1074), MaxDouble, NumNeg(MaxDouble), Canon(FALSE, <<1>>, -1022),
-     NaN, PInf, NInf}
+     Pow2(53), Pow2(31), NaN, PInf, NInf}
+(* the ends of the double range: their decimal text costs seconds to compute *)
+(* (and is the subject of property C06); used as top-level arguments only    *)
+NumExtremes == {Canon(FALSE, <<1>>, -1074), MaxDouble, NumNeg(MaxDouble), Canon(FALSE, <<1>>, -1022)}
+NumExtremesDeep == {DecToNum(FALSE, <<1>>, 300), DecToNum(FALSE, <<1>>, -300), DecToNum(TRUE, <<5>>, -320),
+                    Canon(FALSE, BnSub(BnShl(<<1>>, 52), <<1>>), -1074), DecToNum(FALSE, Dg(<<49, 50, 51, 52, 53>>), 150)}
+Extremes == {NumV(n) : n \in NumExtremes \cup (IF Deep THEN NumExtremesDeep ELSE {})}
 NumAtomsDeep ==
     {DecToNum(FALSE, Dg(<<52, 51, 53>>), -2), DecToNum(FALSE, <<3>>, -1), DecToNum(FALSE, Dg(<<49, 50, 51, 52, 53, 54, 55, 56, 57>>), -4),
      NumAdd(Pow2(53), I(2)), NumSub(Pow2(53), I(1)), NumSub(Pow2(32), I(1)), DecToNum(FALSE, <<1>>, 22), DecToNum(FALSE, <<1>>, 20),
-     DecToNum(FALSE, Dg(<<49, 50>>), -8), DecToNum(FALSE, <<1>>, 300), DecToNum(FALSE, <<1>>, -300), DecToNum(TRUE, <<5>>, -320),
+     DecToNum(FALSE, Dg(<<49, 50>>), -8),
      DecToNum(FALSE, Dg(<<57, 57, 57, 57, 57, 57, 57, 57, 57, 57, 57, 57, 57, 57, 57, 57, 57, 57, 57, 57, 57>>), 0),
      DecToNum(FALSE, Dg(<<49, 50, 51, 52, 53, 54, 55, 56, 57, 48, 49, 50, 51, 52, 53, 54, 55>>), -16)}
 StrAtoms ==
@@ -170,12 +175,12 @@ ParseArgs == {IntV(12), Null, BoolV(TRUE), BoolV(FALSE), Undef, NumV(NaN), NumV(
 SeqSet(sq) == {sq[i] : i \in 1..Len(sq)}
 ParseCase(text, rv) == [fam |-> "parse", text |-> text, rv |-> rv]
 StrCase(v, rp, sp) == [fam |-> "str", v |-> v, rp |-> rp, sp |-> sp]
-StrValues == Atoms \cup Depth1 \cup Depth2 \cup ToJSONVals \cup CycleVals
+StrValues == Atoms \cup Extremes \cup Depth1 \cup Depth2 \cup ToJSONVals \cup CycleVals
 RtValues == {v \in Atoms \cup Depth1 \cup Depth2 : Representable(v)}
-RtTexts == SeqSet(BaseTexts) \cup SeqSet(BaseTextsMore) \cup SeqSet(ExtraTexts)
+RtTexts == SeqSet(BaseTexts) \cup SeqSet(BaseTextsMore) \cup SeqSet(ExtraTexts) \cup (IF Deep THEN SeqSet(ExtraHeavyTexts) ELSE {})
 
 ListCases ==
-    {ParseCase(t, NoRv) : t \in SeqSet(ExtraTexts) \cup SeqSet(SurrTexts) \cup SeqSet(BaseTextsMore)}
+    {ParseCase(t, NoRv) : t \in SeqSet(ExtraTexts) \cup SeqSet(ExtraHeavyTexts) \cup SeqSet(SurrTexts) \cup SeqSet(BaseTextsMore)}
     \cup {ParseCase(t, rv) : t \in SeqSet(ReviveTexts), rv \in Revivers}
     \cup {[fam |-> "parsearg", arg |-> a] : a \in ParseArgs}
     \cup {StrCase(v, NoRp, NoSp) : v \in StrValues}
